@@ -26,8 +26,14 @@ ENV_VARS = {'x'}
 def _mk_graph(spec_):
     g = automata.TransitionSystem()
     g.owner = spec_['owner']
-    g.vars = dict(VARS)
-    g.env_vars = set(ENV_VARS)
+    if spec_.get('no_graph_vars'):
+        # the graph declares no variables of its own: its formula labels refer to
+        # variables that the caller's automaton declares
+        g.vars = dict()
+        g.env_vars = set()
+    else:
+        g.vars = dict(VARS)
+        g.env_vars = set(ENV_VARS)
     order = list(spec_['nodes'])
     if spec_.get('order') == 'largest-first':
         # the node with the largest number is not the one added last
@@ -78,6 +84,9 @@ def graph_family(tier, seed):
     base.append(dict(nodes={0: {}, 1: {}, 2: {}},
                      edges=[(0, 1, {'x': True}), (0, 0, {}), (1, 0, {'x': False, "y'": 1}), (1, 1, {'x': True, 'y': 2}),
                             (2, 0, {"y'": 0}), (2, 1, {'x': True})], initial=[0]))
+    base.append(dict(nodes={0: {'formula': 'x'}, 1: {'formula': '(y < 2)'}, 2: {}},
+                     edges=[(0, 1, {'formula': F}), (1, 2, {}), (2, 0, {'formula': F}), (1, 1, {})],
+                     initial=[0, 1], no_graph_vars=True))
     rnd = random.Random(seed + 77)
     n_rand = 6 if tier == 'quick' else 40
     for _ in range(n_rand):
@@ -255,8 +264,8 @@ def _convert_and_check(ctx, gs, g, edges, nodesref, allowed, tag):
              'graph_to_logic.post: with ignore_initial only the node labels constrain the initial condition' + tag,
              w.valid_goal(ini == want))
     w.oblige('graph_to_logic.post: variable ownership: env = env_vars, sys = the rest, node variable to the owner',
-             z3.BoolVal(set(aut.varlist['env']) == set(ENV_VARS) | ({NODEVAR} if owner == 'env' else set())
-                        and set(aut.varlist['sys']) == (set(VARS) - set(ENV_VARS)) | ({NODEVAR} if owner == 'sys' else set())))
+             z3.BoolVal(set(aut.varlist['env']) == (set() if gs.get('no_graph_vars') else set(ENV_VARS)) | ({NODEVAR} if owner == 'env' else set())
+                        and set(aut.varlist['sys']) == (set() if gs.get('no_graph_vars') else (set(VARS) - set(ENV_VARS))) | ({NODEVAR} if owner == 'sys' else set())))
     w.canary('graph_to_logic canary: at the first node the action is the complement of the specified one',
              w.valid_goal(z3.Implies(N == lit(u), act == z3.Not(z3.And(step, flow)))))
 
